@@ -76,6 +76,15 @@ func (vc *FuncVC) Verify() (err error) {
 	fr := &frame{fn: fn, regs: map[ssa.Value]Value{}, spec: vc.spec, open: map[*ssa.BasicBlock]*openLoop{}}
 	st.fr = fr
 	for _, p := range fn.Params {
+		if _, isFunc := p.Type().Underlying().(*types.Signature); isFunc && vc.specClosure != nil && vc.specClosureVal == nil {
+			cl := &ClosureVal{Fn: vc.specClosure}
+			for _, fv := range vc.specClosure.FreeVars {
+				cl.Bind = append(cl.Bind, vc.freshValue(st, "cfv."+fv.Name(), fv.Type()))
+			}
+			vc.specClosureVal = cl
+			fr.regs[p] = cl
+			continue
+		}
 		fr.regs[p] = vc.freshValue(st, "p."+p.Name(), p.Type())
 	}
 	for _, fv := range fn.FreeVars {
@@ -158,7 +167,39 @@ func (vc *FuncVC) rebind(env *Env, sp *FuncSpec, fr *frame, res []Value) *Env {
 				}
 			}
 		}
+		if cl, isCl := fr.regs[p].(*ClosureVal); isCl {
+			vc.bindClosureVars(n, env.st, cl)
+			continue
+		}
 		n.vars[name] = n.valueTV(fr.regs[p], p.Type())
+	}
+	// a closure under contract sees its captured variables by name
+	for _, fv := range fn.FreeVars {
+		v, ok := fr.regs[fv]
+		if !ok {
+			continue
+		}
+		if _, dup := n.vars[fv.Name()]; dup {
+			continue
+		}
+		pt, isPtr := fv.Type().Underlying().(*types.Pointer)
+		if !isPtr {
+			continue
+		}
+		func() {
+			defer func() {
+				if r := recover(); r != nil {
+					if _, ok := r.(trError); ok {
+						return
+					}
+					panic(r)
+				}
+			}()
+			save := env.st.pc
+			val := vc.load(env.st, v, pt.Elem())
+			env.st.pc = save
+			n.vars[fv.Name()] = n.valueTV(val, pt.Elem())
+		}()
 	}
 	if res != nil {
 		sig := fn.Signature
@@ -364,7 +405,7 @@ func (vc *FuncVC) frameObligations(st *State, base *State, where string) {
 
 func (vc *FuncVC) execBlock(st *State, b *ssa.BasicBlock, prev *ssa.BasicBlock) {
 	vc.paths++
-	if vc.paths > vc.maxPaths*50 {
+	if vc.paths > vc.maxPaths*5 {
 		panic(trError{"path budget exceeded"})
 	}
 	fr := st.fr
@@ -429,7 +470,11 @@ func (vc *FuncVC) loopEnv(st *State, li *loopInfo) *Env {
 	for name, lr := range vc.localNames(fr.fn, li.header) {
 		v, ok := fr.regs[lr.v]
 		if !ok {
-			continue
+			if c, isConst := lr.v.(*ssa.Const); isConst {
+				v = vc.constValue(c)
+			} else {
+				continue
+			}
 		}
 		if lr.isAddr {
 			pt, isPtr := lr.v.Type().Underlying().(*types.Pointer)
@@ -1426,7 +1471,10 @@ func (vc *FuncVC) execMakeSlice(st *State, x *ssa.MakeSlice) Value {
 	if ln.Sort == SBV64 {
 		panic(trError{"make([]T) in bv mode"})
 	}
-	vc.safety(st, "safe.makeslice", And(Le(IntLit(0), ln), Le(ln, cp), Le(cp, pow2(maxLenBits))), "make: len/cap out of range", x.Pos())
+	// a failing allocation (out of memory) is outside the model; what can panic with a recoverable run-time error is
+	// a negative length or len > cap. A successful make returns a slice within the address-space bound.
+	vc.safety(st, "safe.makeslice", And(Le(IntLit(0), ln), Le(ln, cp)), "make: len out of range / cap out of range", x.Pos())
+	st.assume(Le(cp, pow2(maxLenBits)))
 	r := vc.allocate(st, "slice")
 	el := x.Type().Underlying().(*types.Slice).Elem()
 	vc.initArray(st, r, el, cp)
@@ -1723,7 +1771,11 @@ func (vc *FuncVC) pointAsserts(st *State, b *ssa.BasicBlock, call *ssa.Call, aft
 		for n, lr := range vc.localNamesAt(fr.fn, b, call) {
 			v, ok := fr.regs[lr.v]
 			if !ok {
-				continue
+				if c, isConst := lr.v.(*ssa.Const); isConst {
+					v = vc.constValue(c)
+				} else {
+					continue
+				}
 			}
 			func() {
 				defer func() {
@@ -1773,5 +1825,32 @@ func (vc *FuncVC) pointAsserts(st *State, b *ssa.BasicBlock, call *ssa.Call, aft
 			vc.emit(st, vc.uniqueName("assert#"+nm+g.suffix), "assert", as.C.Tags, g.t, as.C.Src, call.Pos())
 			st.assume(g.t)
 		}
+	}
+}
+
+// bindClosureVars makes the captured variables of a closure visible (by name) to a specialised contract.
+func (vc *FuncVC) bindClosureVars(env *Env, st *State, cl *ClosureVal) {
+	for i, fv := range cl.Fn.FreeVars {
+		if i >= len(cl.Bind) {
+			break
+		}
+		pt, ok := fv.Type().Underlying().(*types.Pointer)
+		if !ok {
+			continue
+		}
+		func() {
+			defer func() {
+				if r := recover(); r != nil {
+					if _, ok := r.(trError); ok {
+						return
+					}
+					panic(r)
+				}
+			}()
+			save := st.pc
+			val := vc.load(st, cl.Bind[i], pt.Elem())
+			st.pc = save
+			env.vars[fv.Name()] = env.valueTV(val, pt.Elem())
+		}()
 	}
 }
